@@ -9,6 +9,8 @@ CONSTANTS
   Spawners = TRUE
   NestedSweep = FALSE
   TeardownLoop = TRUE
+  Registers = FALSE
+  FlushRegs = TRUE
   StopOps = FALSE
 VIEW view
 ACTION_CONSTRAINT EmitEdge
